@@ -1200,6 +1200,8 @@ func ssaReadModelObs(doc string, group string, human map[string]interface{}) (*o
 	return o, s
 }
 
+var ssaNilItemCases int // writer-model cases run on a list with nil elements (reported as ssa.writem.nil_item)
+
 func ssaWriteModelObs(r *rng, s *astisub.Subtitles, group string, human map[string]interface{}) *obs {
 	doc := encSsaSubs(s)
 	if strings.Contains(doc, "NaF") {
@@ -1214,6 +1216,14 @@ func ssaWriteModelObs(r *rng, s *astisub.Subtitles, group string, human map[stri
 		human = map[string]interface{}{}
 	}
 	o := &obs{Suite: "ssawritem", Group: group, Input: e.String(), Human: human, NT: len(s.Items) > 0}
+	if len(doc)%8 == 5 {
+		// nil elements inside Items: the writer skips them; the model input above is the list without them
+		cp := *s
+		cp.Items = withNilItems(s.Items, len(doc)/8)
+		s = &cp
+		human["nil_items"] = true
+		ssaNilItemCases++
+	}
 	var buf bytes.Buffer
 	var err error
 	p := safely(func() { err = s.WriteToSSA(&buf) })
@@ -1353,7 +1363,8 @@ func ssaWriterVariation(R *runner, r *rng, s *astisub.Subtitles) {
 }
 
 func suiteSsaModel(R *runner, r *rng) {
-	R.rule("ssa model: the extracted Coq model against the implementation on the same inputs - ssareadm (rendered ground-truth documents, documents written by the library, 1..3 line/byte mutations of rendered documents, hand-written corner documents; result class and projected value, class only outside the model's float domain), ssawritem (written bytes for ground-truth models, for variations exercising nil metadata/styles/attributes, keys differing from identifiers, duplicate identifiers, lines without runs, items without lines, odd durations and integers, thousandth floats, and for every value returned by the reader), row level through the hooks: style rows and event rows against random Formats (permutations, subsets, aliases, unknown and duplicate names, every cell encoding), their string forms, colours, times, text splitting, item text, style references with '*', script info bytes, float spelling; non-trivial = accepted input with content")
+	R.rule("ssa model: the extracted Coq model against the implementation on the same inputs - ssareadm (rendered ground-truth documents, documents written by the library, 1..3 line/byte mutations of rendered documents, hand-written corner documents; result class and projected value, class only outside the model's float domain), ssawritem (written bytes for ground-truth models, for variations exercising nil metadata/styles/attributes, keys differing from identifiers, duplicate identifiers, nil elements inside Items (model input: the list without them), lines without runs, items without lines, odd durations and integers, thousandth floats, and for every value returned by the reader), row level through the hooks: style rows and event rows against random Formats (permutations, subsets, aliases, unknown and duplicate names, every cell encoding), their string forms, colours, times, text splitting, item text, style references with '*', script info bytes, float spelling; non-trivial = accepted input with content")
+	defer func() { R.countN("ssa.writem.nil_item", ssaNilItemCases); ssaNilItemCases = 0 }()
 	N := 800
 	if R.tier == "thorough" {
 		N = 12800
